@@ -8,9 +8,13 @@ legally come out in any order):
   4. records lacking any sort key come last, in input order.
 
 Monitors:
-  verb      `sort` with 1-3 keys over {f, r, c, cr, nf/n, nr, t, tr/rt}, `-b`, missing keys
-  swr       `sort-within-records` (default, -r recursive, -n natural, -f weak form)
-  top       `top -n k -f x [-g] [--min|--max] [-a] [-o]` : the selected records dominate the rest
+  verb      `sort` with 1-3 keys over {f, r, c, cr, nf/n, nr, t, tr/rt}, `-b`, missing keys; lists of 0-1100 records
+            (> 12 and > 50 distinct groups, several batches of several records, records of >= 12 fields), 64-bit ints
+            on both sides of 2^53 / 2^63; one key over typed JSON input (bare numbers vs quoted digit strings);
+            `sort` without keys must refuse
+  swr       `sort-within-records` (default, -r recursive, -n natural, -f / -r {regex} / -r -f {regex} weak form,
+            -n combined with -f / -r {regex})
+  top       `top [-n k] -f x[,y] [-g] [--min|--max] [-a] [-o]` : the selected records dominate the rest
             and are in order under the numeric collation
   dsl       DSL `sort` (arrays / maps, flag strings, by value, comparator functions) and
             `sort_collection`; functions the statement names but the binary lacks are listed as
@@ -53,10 +57,45 @@ STRS = ["abc", "ABC", "Abc", "abd", "ab", "a", "b", "B", "Z", "z", "zebra", "Zeb
         "a_b", "aBc", "_x", "x_", "[", "a1b2", "a1b10", "a1b02"]
 NATS = ["x1", "x2", "x10", "x02", "x2a", "x2b", "x20", "x100", "y1", "y01", "x", "1x", "10x", "2x", "02x", "a1b2", "a1b10",
         "a1b02", "img12.png", "img2.png", "img02.png", "v1.10", "v1.9", "v1.09", "z"]
-for _t in NUM_INTS + NUM_FLOATS:
+# ints that are distinct as 64-bit ints but round to the same double (2^53 / 2^62 / 2^63 neighbourhoods), in several spellings:
+# "numerical" order of two ints is their integer order however large they are
+BIG_CLUSTERS = [
+    ["9223372036854775807", "9223372036854775806", "0x7fffffffffffffff", "9223372036854775000", "0x7ffffffffffffc01", "9223372036854775296"],
+    ["9007199254740993", "9007199254740992", "0x20000000000001", "9007199254740995", "9007199254740994", "9007199254740996"],
+    ["-9223372036854775808", "-9223372036854775807", "-9223372036854775806", "-9223372036854775000"],
+    ["-9007199254740993", "-9007199254740992", "-9007199254740994", "-0x20000000000001"],
+    ["4611686018427387905", "4611686018427387904", "4611686018427387903", "0x4000000000000001"],
+    ["1152921504606846977", "1152921504606846976", "1152921504606846975", "1152921504606847000"],
+]
+for _t in NUM_INTS + NUM_FLOATS + [v for c in BIG_CLUSTERS for v in c]:
     assert SM.parse_num(_t) is not None, _t
 for _t in STRS + NATS:
     assert SM.parse_num(_t) is None and not SM.looks_ambiguous(_t), _t
+
+
+_SYN_ALPHA = "abcxyzABCXYZ019_ -~éÉжЖ"
+
+
+def _synth(rng, kind):
+    """A generated key text (used when a pool must be larger than the curated lists: > 12 / > 50 distinct groups)."""
+    t = rng.random()
+    if kind == "n" and t < 0.8 or kind != "n" and t < 0.2:
+        u = rng.random()
+        if u < 0.45:
+            return str(rng.randint(-10 ** rng.randint(1, 18), 10 ** rng.randint(1, 18)))
+        if u < 0.55:
+            return str(rng.choice([1, -1]) * ((1 << rng.choice([53, 54, 60, 62, 63])) - rng.randint(1, 1500)))
+        if u < 0.65:
+            return hex(rng.randint(0, (1 << rng.choice([8, 16, 40, 63])) - 1))
+        if u < 0.9:
+            return repr(rng.choice([0.5, 0.25, 1.5, 2.75, 1024.0, 3.0, 0.1, 1e-7, 1e12]) * rng.randint(-1000, 1000))
+        return "%de%d" % (rng.randint(-99, 99), rng.randint(-20, 20))
+    if kind == "t" and t < 0.7:
+        return rng.choice(["x", "y", "img", "v1.", "a", ""]) + str(rng.randint(0, 120)).zfill(rng.choice([0, 0, 2, 3])) + rng.choice(["", "", "a", ".png", "b7"])
+    while True:
+        v = "".join(rng.choice(_SYN_ALPHA) for _ in range(rng.randint(1, 4)))
+        if v.strip() == v and SM.parse_num(v) is None and not SM.looks_ambiguous(v):
+            return v
 
 
 def key_pool(rng, kind, size):
@@ -71,12 +110,24 @@ def key_pool(rng, kind, size):
     for pool, k in w:
         src += [pool] * k
     out = []
+    if size >= 2 and rng.random() < (0.35 if kind == "n" else 0.05):
+        # a cluster of large ints that collide as doubles
+        cl = rng.choice(BIG_CLUSTERS)
+        out += rng.sample(cl, min(len(cl), size, rng.randint(2, 4)))
     tries = 0
     while len(out) < size and tries < 400:
         tries += 1
-        v = rng.choice(rng.choice(src))
+        if size > 20 and rng.random() < 0.6:
+            v = _synth(rng, kind)
+            if SM.looks_ambiguous(v):
+                continue
+        else:
+            v = rng.choice(rng.choice(src))
         if v not in out:
             out.append(v)
+    bad = SM.interfering_floats(out)
+    out = [v for v in out if v not in bad and not (kind == "t" and SM.nat_overflow(v))] or [rng.choice(STRS)]
+    rng.shuffle(out)
     return out
 
 
@@ -117,8 +168,15 @@ def _lines(stdout):
 def _run(argv, stdin, res, sigbase, files=None):
     r = R.mlr(argv, stdin=stdin, files=files)
     bump(res, "runs")
+    if r.verdict == "slow":
+        res["inconc"] += 1       # wall-clock watchdog on a loaded machine: not attributable
+        return None
     if r.verdict != "exited":
-        res["inconc"] += 1
+        # cpu / output-cap / deadlock on a small finite input (at most a few thousand short records): a sort that spins
+        # on its comparator or emits a group forever is a failure of the property, not an inconclusive run
+        add_violation(res, dict(sigbase, kind="hang", verdict=r.verdict),
+                      f"mlr {' '.join(argv)[:300]}: did not terminate on a finite input of {len(stdin)} bytes (verdict {r.verdict})",
+                      dict(argv=argv, stdin=stdin if len(stdin) < 20000 else stdin[:20000] + "...", stderr=r.err[-2500:]))
         return None
     if r.crashed() or r.rc != 0:
         add_violation(res, dict(sigbase, kind="crash" if r.crashed() else "exit"),
@@ -141,13 +199,23 @@ def gen_sort_case(rng, nmax, fixed_flags=None, commas=False):
     pools = []
     for fl in flags:
         kind = SM.VERB_FLAGS[fl][0]
-        pools.append(key_pool(rng, kind, rng.choice([1, 2, 3, 4, 6, 9, 15])))
+        pools.append(key_pool(rng, kind, rng.choice([1, 2, 3, 4, 6, 9, 15] if nmax <= 60 else [3, 9, 15, 40, 80, 200])))
     if commas:
         # values containing the default OFS (read with --ifs ';'): Miller must not confuse ("a,b","c") with ("a","b,c")
         for pl in pools:
             pl[:] = pl[:3] + rng.sample(COMMA_VALS, rng.randint(2, len(COMMA_VALS)))
-    n = rng.choice([0, 1, 2, 3, 5, 8, 13, 14, 20, 30, 45, 60]) if nmax <= 60 else rng.choice([13, 40, 100, 250, nmax])
+    if nmax <= 60:
+        n = rng.choice([0, 1, 2, 3, 5, 8, 13, 14, 20, 30, 45, 60])
+    elif nmax <= 150:
+        n = rng.choice([55, 80, 120, nmax])          # > 50 groups: the library sort changes strategy at 12 and at 50 elements
+    elif nmax <= 400:
+        n = rng.choice([13, 40, 100, 250, nmax])
+    else:
+        n = rng.choice([501, 640, 1000, nmax])       # more than one default-size (500) batch
     pmiss = rng.choice([0.0, 0.1, 0.2, 0.2, 0.4])
+    # wide records: 12 or more fields (Miller indexes the keys of wide records lazily; -b re-links fields after the lookups)
+    wide = rng.random() < 0.12
+    wnames = [f"w{i+1}" for i in range(rng.choice([9, 10, 12, 20]))] if wide else []
     recs = []
     for j in range(n):
         rec = [("id", f"r{j+1}")]
@@ -159,10 +227,11 @@ def gen_sort_case(rng, nmax, fixed_flags=None, commas=False):
         slots = [("p", rng.choice(["u", "v", "", "7"]))] + [(f, vals[f]) for f in present]
         if rng.random() < 0.3:
             slots.append(("q", str(rng.randint(0, 9))))
+        slots += [(w_, str(rng.randint(0, 99))) for w_ in wnames]
         rng.shuffle(slots)
         rec += slots
         recs.append(rec)
-    return flags, fields, recs
+    return flags, fields, recs, wide
 
 
 def sort_argv(rng, flags, fields, use_b):
@@ -229,21 +298,62 @@ def check_sorted_records(res, sigbase, argv, stdin, recs, flags, fields, out_lin
                       dict(detail, expected_tail=[_dkvp_line(recs[i]) for i in keyless][:30], got=out_lines[:80]))
         return False, False
     head = got[:nk]
+    cmps = [SM.comparator(*SM.VERB_FLAGS[fl]) for fl in flags]
+    # key tuples whose texts joined with ',' coincide with those of a DIFFERENT tuple (possible only if values contain ','):
+    # the input class of the listed defect C09-F4
+    byjoin = {}
+    for t in set(keys.values()):
+        byjoin.setdefault(",".join(t), set()).add(t)
+    colliding = {t for v in byjoin.values() if len(v) > 1 for t in v}
+
+    def f4_explains(*witness):
+        """True iff the witness tuples belong to a colliding set AND the whole output is exactly what the listed defect
+        predicts and nothing else: records whose joined key texts coincide form one contiguous group in input order, and
+        the groups are ordered (no decided inversion) by the key tuple of their first record."""
+        if not colliding or not any(w in colliding for w in witness):
+            return False
+        runs = []
+        for i in head:
+            j = ",".join(keys[i])
+            if runs and runs[-1][0] == j:
+                if runs[-1][1][-1] > i:
+                    return False
+                runs[-1][1].append(i)
+            else:
+                runs.append((j, [i]))
+        if len({j for j, _ in runs}) != len(runs):
+            return False
+        firsts = {}
+        for i in sorted(keys):
+            firsts.setdefault(",".join(keys[i]), i)
+        if any(idxs[0] != firsts[j] for j, idxs in runs):
+            return False
+        return SM.check_sequence(cmps, [keys[idxs[0]] for _, idxs in runs]) is None
     # stability on identical key texts
     lastpos = {}
     for i in head:
         k = keys[i]
         if k in lastpos and lastpos[k] > i:
+            if colliding:
+                sigbase = dict(sigbase, joined_key_grouping_explains=f4_explains(k))
             add_violation(res, dict(sigbase, kind="stability"),
                           f"mlr {' '.join(argv)}: records with identical key texts {k} swapped (id r{i+1} came after r{lastpos[k]+1})",
                           dict(detail, got=out_lines[:80]))
             return False, False
         lastpos[k] = i
-    cmps = [SM.comparator(*SM.VERB_FLAGS[fl]) for fl in flags]
+    for x, fl in enumerate(flags):
+        if SM.VERB_FLAGS[fl][0] == "t" and any(SM.nat_overflow(k_[x]) for k_ in keys.values()):
+            res["skipped"] += 1      # digit runs beyond int64: C09-F8 makes the collation intransitive, the list cannot be judged
+            return True, False
+        if SM.VERB_FLAGS[fl][0] == "n" and SM.interfering_floats({k_[x] for k_ in keys.values()}):
+            res["skipped"] += 1      # an int/int/float triple on which the collation is undocumented (see the model)
+            return True, False
     inv = SM.check_sequence(cmps, [keys[i] for i in head])
     if inv is not None:
         a, b = inv
         ka, kb = keys[head[a]], keys[head[b]]
+        if colliding:
+            sigbase = dict(sigbase, joined_key_grouping_explains=f4_explains(ka, kb))
         # which key of the chain decides
         which = 0
         for x, (c, u, v) in enumerate(zip(cmps, ka, kb)):
@@ -289,6 +399,8 @@ def _pair_class(kind, a, b):
         ra, rb = names[SM.num_rank(a)], names[SM.num_rank(b)]
         return "/".join(sorted([ra, rb]))
     if kind == "t":
+        if SM.nat_overflow(a) or SM.nat_overflow(b):
+            return "natural:digit-run-over-int64"
         return "natural-with-empty" if (a == "" or b == "") else "natural"
     if kind == "c":
         import re as _re
@@ -305,11 +417,11 @@ def verb_case(case):
         # hand-written regression inputs (kept from defects found by the random cases)
         flags, fields = case["explicit"]["flags"], case["explicit"]["fields"]
         recs = [[("id", f"r{j+1}")] + [tuple(kv) for kv in r] for j, r in enumerate(case["explicit"]["recs"])]
-        use_b = False
+        use_b = wide = False
         argv = ["sort"] + [a for fl, f in zip(flags, fields) for a in (fl, f)]
     else:
-        flags, fields, recs = gen_sort_case(rng, case.get("nmax", 60), case.get("flags"), commas)
-        use_b = rng.random() < 0.10
+        flags, fields, recs, wide = gen_sort_case(rng, case.get("nmax", 60), case.get("flags"), commas)
+        use_b = rng.random() < (0.4 if wide else 0.10)
         argv = sort_argv(rng, flags, fields, use_b)
     if case.get("b"):
         argv = ["--records-per-batch", str(case["b"])] + argv
@@ -318,17 +430,15 @@ def verb_case(case):
         argv = ["--ifs", ";", "--ofs", ";"] + argv
     stdin = "".join(_dkvp_line(r, sep) + "\n" for r in recs)
     sigbase = {"where": "verb-sort"}
-    if commas:
-        tuples = {tuple(dict(r)[f] for f in fields) for r in recs if all(f in dict(r) for f in fields)}
-        joined = {}
-        for t in tuples:
-            joined.setdefault(",".join(t), set()).add(t)
-        sigbase["joined_key_collision"] = any(len(v) > 1 for v in joined.values())
     res = case_result(_h("verb", case["seed"]))
     if commas:
         bump(res, "sorts_with_comma_values")
-        if sigbase["joined_key_collision"]:
-            bump(res, "sorts_with_joined_key_collision")
+    if wide:
+        bump(res, "sorts_of_wide_records_ge12_fields")
+    if (case.get("b") or 500) >= 2 and len(recs) > (case.get("b") or 500):
+        bump(res, "sorts_over_several_batches_of_several_records")
+        if len(recs) > 500 and not case.get("b"):
+            bump(res, "sorts_over_several_default_size_batches")
     for fl in flags:
         bump(res, "flag:" + fl)
     bump(res, f"nkeys:{len(flags)}")
@@ -343,9 +453,145 @@ def verb_case(case):
         bump(res, "verb_sorts_nontrivial")
     if ok:
         bump(res, "sorts_checked")
-        if len({tuple(dict(x).get(f) for f in fields) for x in recs}) > 12:
+        ng = len({tuple(dict(x).get(f) for f in fields) for x in recs})
+        if ng > 12:
             bump(res, "sorts_with_gt12_groups")
+        if ng > 50:
+            bump(res, "sorts_with_gt50_groups")
     res["sample"] = {"monitor": "verb", "argv": argv, "n_records": len(recs)}
+    return res
+
+
+# typed (JSON) input: a quoted value is a string whatever it looks like (new-in-miller-6.md: "quoted values in JSON strings are
+# consistently flagged as strings throughout the processing chain"), a bare number is a number
+JSON_NUMS = ["0", "1", "9", "10", "10.0", "1.5", "-3", "100", "2.5e1", "9007199254740993", "9007199254740992", "0.5", "12", "7"]
+JSON_STRS = ["abc", "ABC", "b", "", "x10", "zebra", "é", "10", "9", "1.5", "0x10", "-3", "100", "7", "1e3", "12"]
+
+
+def _jcmp(kind, rev):
+    """Comparator over typed elements (is_string, text)."""
+    def c(a, b):
+        if kind == "n":
+            ra = 0 if not a[0] else (2 if a[1] == "" else 3)
+            rb = 0 if not b[0] else (2 if b[1] == "" else 3)
+            if ra != rb:
+                r = (ra > rb) - (ra < rb)
+            elif ra == 0:
+                r = SM.cmp_num(a[1], b[1])
+            elif ra == 3:
+                r = SM.cmp_lex(a[1], b[1])
+            else:
+                r = 0
+        else:
+            r = SM.BASE[kind](a[1], b[1])
+        return None if r is None else (-r if rev else r)
+    return c
+
+
+def json_sort_case(case):
+    """`sort` with one key over JSON Lines input whose key values are bare numbers and quoted strings (some of them digit strings)."""
+    rng = random.Random(case["seed"])
+    flag = rng.choice(["-nf", "-nr", "-nf", "-nr", "-f", "-r", "-c"])
+    kind, rev = SM.VERB_FLAGS[flag]
+    n = rng.choice([2, 3, 5, 8, 13, 20, 40, 70])
+    nums = rng.sample(JSON_NUMS, rng.randint(1, 6))
+    strs = rng.sample(JSON_STRS, rng.randint(1, 6))
+    elems = []
+    for j in range(n):
+        if rng.random() < 0.1:
+            elems.append(None)
+        elif rng.random() < 0.5:
+            elems.append((False, rng.choice(nums)))
+        else:
+            elems.append((True, rng.choice(strs)))
+    lines = []
+    for j, e in enumerate(elems):
+        kv = "" if e is None else ', "k": ' + (json.dumps(e[1], ensure_ascii=False) if e[0] else e[1])
+        lines.append('{"id": %d%s, "p": "u"}' % (j + 1, kv))
+    stdin = "".join(l + "\n" for l in lines)
+    argv = ["--ijsonl", "--ojsonl", "sort", flag, "k"]
+    res = case_result(_h("jsonsort", case["seed"]))
+    sigbase = {"where": "verb-sort-json", "flag": flag}
+    bump(res, "json_typed_sorts")
+    r = _run(argv, stdin, res, sigbase)
+    if r is None:
+        return res
+    out = _lines(r.stdout)
+    detail = dict(argv=argv, stdin=stdin, got=out[:80])
+    if sorted(out) != sorted(lines):
+        add_violation(res, dict(sigbase, kind="permutation"), f"mlr {' '.join(argv)}: output records are not the input records (as text)", detail)
+        return res
+    got = [lines.index(l) for l in out]
+    keyed = [i for i in got if elems[i] is not None]
+    if got[len(keyed):] != [i for i in range(n) if elems[i] is None]:
+        add_violation(res, dict(sigbase, kind="keyless-tail"), f"mlr {' '.join(argv)}: records lacking the key are not at the end in input order", detail)
+        return res
+    cmpf = _jcmp(kind, rev)
+
+    def first_bad(seq):
+        for x in range(len(seq)):
+            for y in range(x + 1, len(seq)):
+                a, b = elems[seq[x]], elems[seq[y]]
+                if a == b:
+                    if seq[x] > seq[y]:
+                        return ("stability", seq[x], seq[y])
+                    continue
+                c = cmpf(a, b)
+                if c is not None and c > 0:
+                    return ("order", seq[x], seq[y])
+        return None
+    if kind == "n" and SM.interfering_floats([e[1] for e in elems if e and not e[0]]):
+        res["skipped"] += 1
+        return res
+    bad = first_bad(keyed)
+    if bad:
+        what, i, j = bad
+        a, b = elems[i], elems[j]
+        # witness-level test for the listed defect "same text, different type share one group": the pair involves a text that
+        # occurs both quoted and bare, and the whole output is what grouping by text predicts (groups contiguous in input order,
+        # ordered by the typed value of their first record)
+        both = {e[1] for e in elems if e and e[0]} & {e[1] for e in elems if e and not e[0]}
+        explains = False
+        if a[1] in both or b[1] in both:
+            runs = []
+            for i_ in keyed:
+                if runs and elems[runs[-1][0]][1] == elems[i_][1]:
+                    runs[-1].append(i_)
+                else:
+                    runs.append([i_])
+            texts = [elems[r_[0]][1] for r_ in runs]
+            firsts = {}
+            for i_ in sorted(keyed):
+                firsts.setdefault(elems[i_][1], i_)
+            explains = (len(set(texts)) == len(texts) and all(r_ == sorted(r_) and r_[0] == firsts[elems[r_[0]][1]] for r_ in runs)
+                        and first_bad([r_[0] for r_ in runs]) is None)
+        show = lambda e: (json.dumps(e[1]) if e[0] else e[1])
+        add_violation(res, dict(sigbase, kind=what, same_text_grouping_explains=explains,
+                                **{"class": "/".join(sorted(["string" if e[0] else "number" for e in (a, b)]))}),
+                      f"mlr {' '.join(argv)}: JSON value {show(a)} (id {i+1}) must not precede {show(b)} (id {j+1})", detail)
+        return res
+    bump(res, "json_typed_sorts_checked")
+    res["nontrivial"] = len({e for e in elems if e}) >= 2 and got != sorted(got)
+    return res
+
+
+def noflags_case(case):
+    """`sort` needs at least one key flag: without any (or with only -b) it must refuse - non-zero exit, a message, no records
+    emitted, no crash and no hang - rather than pass the stream through in some order."""
+    argv = case["argv"]
+    res = case_result(_h("noflags", tuple(argv)))
+    sigbase = {"where": "verb-sort", "case": "no-sort-keys"}
+    stdin = "id=r1,k1=b\nid=r2,k1=a\n"
+    r = R.mlr(argv, stdin=stdin)
+    bump(res, "runs")
+    if r.verdict == "slow":
+        res["inconc"] += 1
+        return res
+    if r.verdict != "exited" or r.crashed() or r.rc == 0 or r.stdout.strip() or not r.err.strip():
+        add_violation(res, dict(sigbase, kind="hang" if r.verdict != "exited" else "crash" if r.crashed() else "no-refusal"),
+                      f"mlr {' '.join(argv)}: expected a refusal (non-zero exit, message, no output); got verdict {r.verdict} rc={r.rc} "
+                      f"stdout={r.out[:80]!r} stderr={r.err[:120]!r}", dict(argv=argv, stdin=stdin))
+    res["nontrivial"] = True
     return res
 
 
@@ -415,9 +661,15 @@ def swr_case(case):
         argv += ["-r", "then", "cat"]     # "-r with no regex argument" inside a then-chain
     elif mode == "-n":
         argv += ["-n"]
-    elif mode == "-f":
-        sel = rng.sample(SWR_KEYS, rng.randint(1, 6))
-        argv += ["-f", ",".join(sel)]
+    elif mode in ("-f", "-n-f"):
+        sel = rng.sample(SWR_KEYS, rng.randint(1, 6) if mode == "-f" else rng.randint(3, 12))
+        argv += (["-n"] if mode == "-n-f" else []) + ["-f", ",".join(sel)]
+    elif mode in ("-r-regex", "-n-r-regex", "-r-f-regex"):
+        import re as _re
+        rx = rng.choice(["^[ax]", "^a", "[0-9]$", "^(k|K|m|zz)$", "^x", "^[a-z]+$", "^.$"])
+        sel = [k for k in SWR_KEYS + ["id"] if _re.search(rx, k)]
+        argv += {"-r-regex": ["-r", rx], "-n-r-regex": ["-n", "-r", rx], "-r-f-regex": ["-r", "-f", rx]}[mode]
+    natural = mode in ("-n", "-n-f", "-n-r-regex")
     sigbase = {"where": "sort-within-records", "mode": mode}
     res = case_result(_h("swr", mode, case["seed"]))
     bump(res, "swr_mode:" + mode)
@@ -459,7 +711,23 @@ def swr_case(case):
                               dict(argv=argv, stdin=line + "\n", got=_to_json(got)))
                 return res
             gk = [k for k, _ in got]
-            if mode == "-n":
+            if sel is not None:
+                # "-f / -r {regex}: sort only these keys; others preserve record order": relative orders only
+                s_in = [k for k in gk if k in sel]
+                o_in = [k for k in gk if k not in sel]
+                bad = None
+                for x in range(len(s_in)):
+                    for y in range(x + 1, len(s_in)):
+                        c = SM.cmp_nat(s_in[x], s_in[y]) if natural else SM.cmp_lex(s_in[x], s_in[y])
+                        if c is not None and c > 0:
+                            bad = (s_in[x], s_in[y])
+                if bad or o_in != [k for k, _ in o if k not in sel]:
+                    add_violation(res, dict(sigbase, kind="order"),
+                                  f"mlr {' '.join(argv)}: selected keys not in {'natural' if natural else 'lexical'} order"
+                                  f"{' (' + repr(bad[0]) + ' precedes ' + repr(bad[1]) + ')' if bad else ''} or other keys moved: {gk}",
+                                  dict(argv=argv, stdin=line + "\n", got=_to_json(got)))
+                    return res
+            elif mode == "-n":
                 bad = None
                 for x in range(len(gk)):
                     for y in range(x + 1, len(gk)):
@@ -469,15 +737,6 @@ def swr_case(case):
                 if bad:
                     add_violation(res, dict(sigbase, kind="order"),
                                   f"mlr {' '.join(argv)}: keys {gk} not in natural order: {bad[0]!r} precedes {bad[1]!r}",
-                                  dict(argv=argv, stdin=line + "\n", got=_to_json(got)))
-                    return res
-            else:
-                # "-f: sort only these keys; others preserve record order": relative orders only
-                s_in = [k for k in gk if k in sel]
-                o_in = [k for k in gk if k not in sel]
-                if s_in != sorted(s_in, key=lambda k: k.encode()) or o_in != [k for k, _ in o if k not in sel]:
-                    add_violation(res, dict(sigbase, kind="order"),
-                                  f"mlr {' '.join(argv)}: selected keys not in lexical order or other keys moved: {gk}",
                                   dict(argv=argv, stdin=line + "\n", got=_to_json(got)))
                     return res
             if gk != [k for k, _ in o] and len(o) >= 3:
@@ -495,31 +754,53 @@ def swr_case(case):
 
 def top_case(case):
     rng = random.Random(case["seed"])
-    n = rng.choice([0, 1, 2, 5, 13, 14, 30, 60])
-    k = rng.choice([0, 1, 1, 2, 3, 5, 14, 100])
+    n = rng.choice([0, 1, 2, 5, 13, 14, 30, 60, 130])
+    k = rng.choice([0, 1, 1, 2, 3, 5, 14, 60, 100])
+    default_n = rng.random() < 0.15           # "-n {count} ...; default 1"
+    if default_n:
+        k = 1
     grouped = rng.random() < 0.5
     mode = rng.choice(["--max", "--min", ""])
     all_ = rng.random() < 0.5
     oname = None if all_ or rng.random() < 0.7 else "rank"
-    pool = key_pool(rng, "n", rng.choice([1, 3, 6, 12, 20]))
-    if rng.random() < 0.5:
-        pool = [v for v in pool if SM.parse_num(v) is not None] or ["1", "2"]
+    # several value fields (-a "requires a single value-field name only")
+    vfields = ["x", "y"] if (not all_ and rng.random() < 0.3) else ["x"]
+    pools = {}
+    for f in vfields:
+        pool = key_pool(rng, "n", rng.choice([1, 3, 6, 12, 20, 70]))
+        if rng.random() < 0.5:
+            pool = [v for v in pool if SM.parse_num(v) is not None] or ["1", "2"]
+        assert not SM.interfering_floats(pool)
+        pools[f] = pool
     pmiss = rng.choice([0.0, 0.15])
+    wide = rng.random() < 0.12
+    wnames = [f"w{i+1}" for i in range(rng.choice([9, 12, 20]))] if wide else []
     recs = []
     for j in range(n):
         rec = [("id", f"r{j+1}")]
+        rec += [(w_, str(rng.randint(0, 99))) for w_ in wnames[:len(wnames) // 2]]
         if grouped and rng.random() >= pmiss:
             rec.append(("g", rng.choice(["a", "b", "c", ""])))
-        if rng.random() >= pmiss:
-            rec.append(("x", rng.choice(pool)))
+        if len(vfields) > 1:
+            # every record carries all value fields (what a record with only some of them contributes is not documented)
+            rec += [(f, rng.choice(pools[f])) for f in vfields]
+        elif rng.random() >= pmiss:
+            rec.append(("x", rng.choice(pools["x"])))
         rec.append(("p", str(rng.randint(0, 9))))
+        rec += [(w_, str(rng.randint(0, 99))) for w_ in wnames[len(wnames) // 2:]]
         recs.append(rec)
-    argv = ["top", "-n", str(k), "-f", "x"] + (["-g", "g"] if grouped else []) + ([mode] if mode else []) + \
-           (["-a"] if all_ else []) + (["-o", oname] if oname else [])
+    argv = ["top"] + ([] if default_n else ["-n", str(k)]) + ["-f", ",".join(vfields)] + (["-g", "g"] if grouped else []) + \
+           ([mode] if mode else []) + (["-a"] if all_ else []) + (["-o", oname] if oname else [])
     stdin = "".join(_dkvp_line(r) + "\n" for r in recs)
     sigbase = {"where": "top", "mode": mode or "--max", "all": all_}
     res = case_result(_h("top", case["seed"]))
     bump(res, "top_cases")
+    if len(vfields) > 1:
+        bump(res, "top_with_two_value_fields")
+    if default_n:
+        bump(res, "top_with_default_n")
+    if wide:
+        bump(res, "top_on_wide_records_ge12_fields")
     r = _run(argv, stdin, res, sigbase)
     if r is None:
         return res
@@ -528,7 +809,7 @@ def top_case(case):
     groups = {}
     for i, rec in enumerate(recs):
         d = dict(rec)
-        if "x" not in d or (grouped and "g" not in d):
+        if any(f not in d for f in vfields) or (grouped and "g" not in d):
             continue
         groups.setdefault(d["g"] if grouped else None, []).append(i)
     detail = dict(argv=argv, stdin=stdin, got=out[:60])
@@ -544,15 +825,15 @@ def top_case(case):
             i = byline[ol]
             gk = dict(recs[i]).get("g") if grouped else None
             val = dict(recs[i])["x"] if "x" in dict(recs[i]) else None
-            item = (val, i)
+            item = ((val,), i)
         else:
             d = dict(_parse_line(ol))
-            want_keys = (["g"] if grouped else []) + [idxname, "x_top"]
+            want_keys = (["g"] if grouped else []) + [idxname] + [f + "_top" for f in vfields]
             if [k_ for k_, _ in _parse_line(ol)] != want_keys:
                 add_violation(res, dict(sigbase, kind="shape"), f"mlr {' '.join(argv)}: output fields {list(d)} are not {want_keys}", detail)
                 return res
             gk = d.get("g") if grouped else None
-            item = (d["x_top"], int(d[idxname]) if d[idxname].isdigit() else -1)
+            item = (tuple(d[f + "_top"] for f in vfields), int(d[idxname]) if d[idxname].isdigit() else -1)
         if gk not in got_groups:
             got_groups[gk] = []
             order.append(gk)
@@ -563,49 +844,50 @@ def top_case(case):
         return res
     nt = False
     for g, idxs in groups.items():
-        vals = [dict(recs[i])["x"] for i in idxs]
-        m = min(k, len(vals))
+        m = min(k, len(idxs))
         items = got_groups.get(g, [])
         if not all_:
             if [it[1] for it in items] != list(range(1, len(items) + 1)):
                 add_violation(res, dict(sigbase, kind="shape"), f"mlr {' '.join(argv)}: {idxname} not 1..n in group {g!r}", detail)
                 return res
             # rows past the group size (padding) must be empty
-            if any(it[0] != "" for it in items[m:]) or len(items) not in (m, k):
+            if any(v != "" for it in items[m:] for v in it[0]) or len(items) not in (m, k):
                 add_violation(res, dict(sigbase, kind="count"),
-                              f"mlr {' '.join(argv)}: group {g!r} has {len(vals)} values, {len(items)} rows out with values {[it[0] for it in items][:8]}", detail)
+                              f"mlr {' '.join(argv)}: group {g!r} has {len(idxs)} values, {len(items)} rows out with values {[it[0] for it in items][:8]}", detail)
                 return res
             items = items[:m]
         elif len(items) != m:
             add_violation(res, dict(sigbase, kind="count"), f"mlr {' '.join(argv)}: group {g!r}: {len(items)} records out, expected min(n, group size) = {m}", detail)
             return res
-        chosen = [it[0] for it in items]
-        rest = list(vals)
-        for c in chosen:
-            if c in rest:
-                rest.remove(c)
-            else:
-                add_violation(res, dict(sigbase, kind="value"), f"mlr {' '.join(argv)}: top value {c!r} of group {g!r} is not among the group's remaining input values", detail)
-                return res
         if all_ and len({it[1] for it in items}) != len(items):
             add_violation(res, dict(sigbase, kind="permutation"), f"mlr {' '.join(argv)}: a record is output twice", detail)
             return res
-        for x in range(len(chosen)):
-            for y in range(x + 1, len(chosen)):
-                c = cmpf(chosen[x], chosen[y])
-                if c is not None and c > 0:
-                    add_violation(res, dict(sigbase, kind="order", **{"class": _pair_class("n", chosen[x], chosen[y])}),
-                                  f"mlr {' '.join(argv)}: top values of group {g!r} out of order: {chosen[x]!r} before {chosen[y]!r}", detail)
+        for fi, f in enumerate(vfields):
+            vals = [dict(recs[i])[f] for i in idxs]
+            chosen = [it[0][fi] for it in items]
+            rest = list(vals)
+            for c in chosen:
+                if c in rest:
+                    rest.remove(c)
+                else:
+                    add_violation(res, dict(sigbase, kind="value"), f"mlr {' '.join(argv)}: top value {c!r} of field {f} of group {g!r} is not among the group's remaining input values", detail)
                     return res
-        if chosen:
-            for v in rest:
-                c = cmpf(v, chosen[-1])
-                if c is not None and c < 0:
-                    add_violation(res, dict(sigbase, kind="dominance", **{"class": _pair_class("n", v, chosen[-1])}),
-                                  f"mlr {' '.join(argv)}: group {g!r}: {v!r} was left out although it ranks before the selected {chosen[-1]!r}", detail)
-                    return res
-        if len(set(vals)) >= 2 and 0 < m < len(vals):
-            nt = True
+            for x in range(len(chosen)):
+                for y in range(x + 1, len(chosen)):
+                    c = cmpf(chosen[x], chosen[y])
+                    if c is not None and c > 0:
+                        add_violation(res, dict(sigbase, kind="order", **{"class": _pair_class("n", chosen[x], chosen[y])}),
+                                      f"mlr {' '.join(argv)}: top values of field {f} of group {g!r} out of order: {chosen[x]!r} before {chosen[y]!r}", detail)
+                        return res
+            if chosen:
+                for v in rest:
+                    c = cmpf(v, chosen[-1])
+                    if c is not None and c < 0:
+                        add_violation(res, dict(sigbase, kind="dominance", **{"class": _pair_class("n", v, chosen[-1])}),
+                                      f"mlr {' '.join(argv)}: group {g!r}: {f}={v!r} was left out although it ranks before the selected {chosen[-1]!r}", detail)
+                        return res
+            if len(set(vals)) >= 2 and 0 < m < len(vals):
+                nt = True
     bump(res, "tops_checked")
     res["nontrivial"] = nt
     res["sample"] = {"monitor": "top", "argv": argv, "n_records": n}
@@ -625,6 +907,12 @@ ARR_FUNCS = [
     ("mod5", "func(a,b) { return (a % 5) <=> (b % 5) }", lambda a, b: (int(a) % 5 > int(b) % 5) - (int(a) % 5 < int(b) % 5), "nat"),
     ("ternary", "func(a,b) { return a < b ? -1 : a > b ? 1 : 0 }", lambda a, b: (int(a) > int(b)) - (int(a) < int(b)), "int"),
     ("minus", "func(a,b) { return a - b }", lambda a, b: (int(a) > int(b)) - (int(a) < int(b)), "int"),
+    # the documented contract is the SIGN of the result ("returning < 0, 0, or > 0"): fractional, tiny and huge magnitudes
+    ("minus-frac", "func(a,b) { return a - b }", lambda a, b: _fsgn(SM.parse_num(a), SM.parse_num(b)), "frac"),
+    ("half", "func(a,b) { return (a <=> b) * 0.5 }", lambda a, b: SM.cmp_num(a, b), "homog"),
+    ("tiny", "func(a,b) { return (b <=> a) * 1.0e-300 }", lambda a, b: SM.cmp_num(b, a), "homog"),
+    ("huge", "func(a,b) { return (a <=> b) * 1.0e300 }", lambda a, b: SM.cmp_num(a, b), "homog"),
+    ("permille", "func(a,b) { return (a - b) / 1000 }", lambda a, b: (int(a) > int(b)) - (int(a) < int(b)), "int"),
     ("even_then_odd",
      "func(a,b) { ax = a % 2; bx = b % 2; if (ax == bx) { return a <=> b } elif (bx == 1) { return -1 } else { return 1 } }",
      lambda a, b: ((int(a) > int(b)) - (int(a) < int(b))) if int(a) % 2 == int(b) % 2 else (-1 if int(b) % 2 == 1 else 1), "nat"),
@@ -637,6 +925,21 @@ MAP_FUNCS = [
     ("av-then-ak", "func(ak,av,bk,bv) { return av == bv ? ak <=> bk : av <=> bv }",
      lambda a, b: SM.cmp_lex(a[0], b[0]) if int(a[1]) == int(b[1]) else (int(a[1]) > int(b[1])) - (int(a[1]) < int(b[1]))),
 ]
+MAP_FUNCS += [
+    ("av-bv", "func(ak,av,bk,bv) { return av - bv }", lambda a, b: _fsgn(SM.parse_num(a[1]), SM.parse_num(b[1]))),
+    ("(bv-av)/8", "func(ak,av,bk,bv) { return (bv - av) / 8 }", lambda a, b: _fsgn(SM.parse_num(b[1]), SM.parse_num(a[1]))),
+    ("quarter-bk<=>ak", "func(ak,av,bk,bv) { return (bk <=> ak) * 0.25 }", lambda a, b: SM.cmp_lex(b[0], a[0])),
+]
+FRAC_VALS = ["0.5", "0.25", "0.75", "0.1", "0.3", "1.5", "1.25", "-0.5", "-0.25", "2", "0", "0.7", "0.71", "3.9", "4.1", "1e-3", "1",
+             "0.125", "-0.75", "0.2", "3", "-1"]
+
+
+def _fsgn(x, y):
+    # sign of x - y computed in doubles = sign of the exact difference (a difference of two different doubles is never 0)
+    return (x > y) - (x < y)
+
+
+MAP_KEYS_MORE = [c1 + c2 for c1 in "bDfHj" for c2 in "aEiOuY12"]
 MAP_KEYS_STR = ["alpha", "Beta", "gamma", "delta", "Eps", "zeta", "eta", "Theta", "iota", "kappa", "la", "mu", "nu", "xi", "Om",
                 "pi", "rho", "Sig", "tau", "ups", "phi", "chi", "psi", "om"]
 MAP_KEYS_MIX = MAP_KEYS_STR[:10] + ["3", "10", "9", "-1", "0x10", "1.5", "100", "2", "x10", "x9", "x2", "ab", "AB", "aB", "-b", "+a"]
@@ -684,11 +987,15 @@ def dsl_case(case):
     recs = []
     for j in range(nrec):
         n = rng.choice([0, 1, 2, 3, 5, 8, 12, 13, 14, 20, 33])
+        if j == 1:
+            n = rng.choice([51, 64, 130])      # beyond the library sort's 12- and 50-element cut-offs; one per process (all-pairs check)
         if form == "sort-array-func":
             if dom == "homog":
                 pool = rng.choice([NUM_INTS + NUM_FLOATS, [s for s in STRS if s]])
             elif dom == "ascii":
                 pool = ["a", "bb", "ccc", "dd", "e", "ffff", "", "gg", "hhhhh", "abc", "xy"]
+            elif dom == "frac":
+                pool = FRAC_VALS
             elif dom == "int":
                 pool = [str(v) for v in range(-12, 13)]
             else:
@@ -696,13 +1003,16 @@ def dsl_case(case):
             vals = [rng.choice(pool) for _ in range(n)]
             keys = [f"f{i+1}" for i in range(n)]
         elif form == "sort-map-func":
-            keys = rng.sample(MAP_KEYS_STR, min(n, len(MAP_KEYS_STR)))
-            vals = [str(rng.randint(-3, 6)) for _ in keys]
+            keys = rng.sample(MAP_KEYS_STR + MAP_KEYS_MORE, min(n, len(MAP_KEYS_STR + MAP_KEYS_MORE)))
+            if func in ("av-bv", "(bv-av)/8"):
+                vals = [rng.choice(FRAC_VALS) for _ in keys]
+            else:
+                vals = [str(rng.randint(-3, 6)) for _ in keys]
         elif form == "sort-map" and not byval:
-            keys = rng.sample(MAP_KEYS_MIX, min(n, len(MAP_KEYS_MIX)))
+            keys = rng.sample(MAP_KEYS_MIX + MAP_KEYS_MORE, min(n, len(MAP_KEYS_MIX + MAP_KEYS_MORE)))
             vals = [rng.choice(["1", "x", "", "2.5"]) for _ in keys]
         else:
-            pool = key_pool(rng, kind, rng.choice([1, 3, 6, 10, 20]))
+            pool = key_pool(rng, kind, rng.choice([1, 3, 6, 10, 20]) if n <= 33 else rng.choice([20, 80, 150]))
             pool = [v for v in pool if v not in ("true", "false")]
             vals = [rng.choice(pool) for _ in range(n)]
             keys = [f"f{i+1}" for i in range(n)]
@@ -756,6 +1066,12 @@ def dsl_case(case):
                 cmpf = SM.comparator("n", False)
             else:
                 cmpf = SM.comparator(kind, rev)
+            if (form == "sort_collection" or kind == "n") and SM.interfering_floats(got_t):
+                res["skipped"] += 1
+                return
+            if form == "sort-array" and kind == "t" and any(SM.nat_overflow(t_) for t_ in got_t):
+                res["skipped"] += 1
+                return
             bad = _first_inversion(cmpf, got)
             if bad:
                 a, b = bad
@@ -791,6 +1107,12 @@ def dsl_case(case):
                 seq = gk
                 cmpf = SM.comparator(kind, rev)
                 show = SM.text_of
+            if form != "sort-map-func" and kind == "n" and SM.interfering_floats([show(z) for z in seq]):
+                res["skipped"] += 1
+                return
+            if form != "sort-map-func" and kind == "t" and any(SM.nat_overflow(show(z)) for z in seq):
+                res["skipped"] += 1
+                return
             bad = _first_inversion(cmpf, seq)
             if bad:
                 a, b = bad
@@ -846,7 +1168,11 @@ def _first_inversion(cmpf, seq):
 PRE_POOL = (["0", "-0", "+0", "0.0", "-0.0", "1", "1.0", "0x1", "0b1", "1e0", "1.", "-1", "-1.0", "2", "10", "9", "1e3", "1000",
              "1e-3", "0.001", ".5", "0.5", "5e-1", "9007199254740992", "9007199254740992.0", "9007199254740994",
              "9007199254740994.0", "4611686018427387904", "4.611686018427387904e18", "-9223372036854775808",
-             "-9223372036854775808.0", "1e308", "-1e308", "5e-324", "0xff", "255", "0xFF", "255.0"] +
+             "-9223372036854775808.0", "1e308", "-1e308", "5e-324", "0xff", "255", "0xFF", "255.0",
+             # ints that are NOT exactly representable as doubles, next to their neighbours (pairwise agreement only; the
+             # preorder laws are stated for exactly representable values)
+             "9007199254740993", "9223372036854775807", "9223372036854775806", "0x7fffffffffffffff", "-9223372036854775807",
+             "4611686018427387905"] +
             ["", "abc", "ABC", "Abc", "abd", "ab", "a b", "é", "É", "e", "zebra", "Zebra", "_", "a_", "aB", "true", "false",
              "10a", "a10", "a9", "-", "~", "ω", "Ω", "ж", "Ж", "日本", "😀", " ", "A", "a", "[", "x"])
 assert len(set(PRE_POOL)) == len(PRE_POOL)
@@ -860,9 +1186,11 @@ def pre_pool(chk):
         strs = [v for v in pool if SM.parse_num(v) is None]
         rng.shuffle(nums)
         rng.shuffle(strs)
-        keep_n = ["0", "-0", "0.0", "1", "1.0", "0x1", "9007199254740992", "9007199254740992.0", "9007199254740994", "-1", "1e3", "1000"]
+        keep_n = ["0", "-0", "0.0", "1", "1.0", "0x1", "9007199254740992", "9007199254740992.0", "9007199254740994", "-1", "1e3", "1000",
+                  "9007199254740993", "9223372036854775807", "9223372036854775806", "0x7fffffffffffffff", "-9223372036854775807",
+                  "-9223372036854775808", "4611686018427387905", "4611686018427387904"]
         keep_s = ["", "abc", "ABC", "Abc", "é", "É", "_", "true", " ", "a"]
-        nums = keep_n + [v for v in nums if v not in keep_n][:20]
+        nums = keep_n + [v for v in nums if v not in keep_n][:16]
         strs = keep_s + [v for v in strs if v not in keep_s][:18]
         return nums + strs           # 60 values
     rng = chk.rng("prepool")
@@ -895,7 +1223,7 @@ def preorder_case(case):
     n = len(pool)
     res = case_result(_h("pre", via, kind, case["seed"]))
     sigbase = {"where": "preorder-" + via, "comparator": kind}
-    flag = {"f": "-f", "c": "-c", "n": "-nf"}[kind]
+    flag = PRE_FLAG[kind]
     dfl = {"f": "f", "c": "c", "n": ""}[kind]
     triples = case["triples"]
     lines = []
@@ -1032,7 +1360,12 @@ def preorder_case(case):
     return res
 
 
-def analyse_relation(pool, Rel, tri_out, via, kind, argv):
+def _exact(t):
+    v = SM.parse_num(t)
+    return v is None or SM.exactly_double(v)
+
+
+def analyse_relation(pool, Rel, tri_out, via, kind, argv, preorder=True):
     """Model-free: is the observed pairwise relation a total preorder, do the 3-sorts embed it; and
     does it agree with the reference comparator. -> ([(sig, what, detail)], stats)"""
     n = len(pool)
@@ -1043,20 +1376,23 @@ def analyse_relation(pool, Rel, tri_out, via, kind, argv):
     def rel(i, j):
         return 0 if i == j else Rel[(i, j)]
     # total preorder <=> rank(i) = #{x : x < i} represents the relation
-    rank = [sum(1 for x in range(n) if rel(x, i) < 0) for i in range(n)]
+    # (numeric comparator: over the values exactly representable as doubles, as the statement says)
+    dom = [i for i in range(n) if kind != "n" or _exact(pool[i])] if preorder else []
+    indom = set(dom)
+    rank = {i: sum(1 for x in dom if rel(x, i) < 0) for i in dom}
     done = False
-    for i in range(n):
+    for di, i in enumerate(dom):
         if done:
             break
-        for j in range(i + 1, n):
+        for j in dom[di + 1:]:
             want = (rank[i] > rank[j]) - (rank[i] < rank[j])
             if want != rel(i, j):
                 wit = None
-                for a_ in range(n):          # full search, only on failure
-                    for b_ in range(n):
+                for a_ in dom:          # full search, only on failure
+                    for b_ in dom:
                         if b_ == a_ or rel(a_, b_) > 0:
                             continue
-                        for c_ in range(n):
+                        for c_ in dom:
                             if c_ != a_ and c_ != b_ and rel(b_, c_) <= 0 and rel(a_, c_) > 0:
                                 wit = (a_, b_, c_)
                                 break
@@ -1072,9 +1408,11 @@ def analyse_relation(pool, Rel, tri_out, via, kind, argv):
                              dict(argv=argv, values=w)))
                 done = True
                 break
-    stats["triples_checked_by_rank"] = n * (n - 1) * (n - 2)
+    stats["triples_checked_by_rank"] = len(dom) * (len(dom) - 1) * (len(dom) - 2)
     for t in tri_out:
         bad = False
+        if not all(i in indom for i in t):
+            continue
         for x in range(len(t)):
             for y in range(x + 1, len(t)):
                 if rel(t[x], t[y]) > 0 and not bad:
@@ -1084,7 +1422,7 @@ def analyse_relation(pool, Rel, tri_out, via, kind, argv):
                                  f"{pool[t[x]]!r} and {pool[t[y]]!r}", dict(argv=argv, values=[pool[i] for i in t])))
         if bad:
             break
-    stats["three_sorts_checked"] = len(tri_out)
+    stats["three_sorts_checked"] = sum(1 for t in tri_out if all(i in indom for i in t))
     cmpf = SM.BASE[kind]
     undec = 0
     seen_cls = set()
@@ -1106,11 +1444,17 @@ def analyse_relation(pool, Rel, tri_out, via, kind, argv):
     return viol, stats
 
 
+PRE_FLAG = {"f": "-f", "c": "-c", "n": "-nf", "t": "-t"}
+# natural comparator: direct 2-record sorts only (the statement does not claim it is a preorder; agreement with the Alphanum rule)
+NAT_PAIR_POOL = ["", "x1", "x2", "x10", "x02", "a97", "a7334374", "a9223372036854775808", "x2a", "1x", "10x", "v1.10", "v1.9", "z", "Z",
+                 "img12.png", "img2.png", "x20", "02x", "a1b2", "a1b10", "-9223372036854775808", "x", "9", "10", "a18446744073709551616"]
+
+
 def verb_pairs_case(case):
     """Direct (unbatched) 2-record sorts: `sort <flag> k` on [a,b] and on [b,a], for a chunk of pairs.
     Two records are sorted by insertion, so a tie keeps input order and the relation is observable."""
     kind = case["kind"]
-    flag = {"f": "-f", "c": "-c", "n": "-nf"}[kind]
+    flag = PRE_FLAG[kind]
     res = case_result(_h("vpairs", kind, case["pairs"][0], len(case["pairs"])))
     sigbase = {"where": "preorder-verb", "comparator": kind}
     rels = []
@@ -1147,7 +1491,7 @@ def verb_pairs_case(case):
 
 def verb_triples_case(case):
     kind = case["kind"]
-    flag = {"f": "-f", "c": "-c", "n": "-nf"}[kind]
+    flag = PRE_FLAG[kind]
     res = case_result(_h("vtriples", kind, case["triples"][0], len(case["triples"])))
     sigbase = {"where": "preorder-verb", "comparator": kind}
     outs = []
@@ -1180,8 +1524,12 @@ def doc_case(case):
     argv, files = p
     r = R.mlr(argv, files=files)
     bump(res, "doc_blocks_replayed")
-    if r.verdict != "exited":
+    if r.verdict == "slow":
         res["inconc"] += 1
+        return res
+    if r.verdict != "exited":
+        add_violation(res, {"where": "doc-replay", "page": case["page"], "kind": "hang", "verdict": r.verdict, "cmd": case["cmd"][:80]},
+                      f"{case['page']}: `{case['cmd'][:100]}` did not terminate (verdict {r.verdict})", dict(argv=argv))
         return res
     if r.out != case["expected"]:
         exp, got = case["expected"].split("\n"), r.out.split("\n")
@@ -1201,8 +1549,10 @@ def doc_case(case):
 def run(chk):
     only = getattr(chk, "only", None)
     q = chk.quick()
-    chk.rule = ("verb: random record lists (0-60 records, thorough up to 400; key pools of 1-15 texts mixing ints, floats, hex/binary, "
-                "empties, strings, multi-byte, natural-sort shapes; up to 40% of records missing a key) x 1-3 sort keys over "
+    chk.rule = ("verb: random record lists (0-60 records, 1 in 6 with 55-150, a few with 501-1100, thorough also up to 400; key pools of "
+                "1-15 (long lists: up to 200) texts mixing ints, floats, hex/binary, clusters of 64-bit ints that collide as doubles, "
+                "empties, strings, multi-byte, natural-sort shapes; up to 40% of records missing a key; --records-per-batch "
+                "default/1/2/7/50/500; 12% wide records) x 1-3 sort keys over "
                 "{-f,-r,-c,-cr,-nf/-n,-nr,-t,-tr/-rt} (+ -b in 10%); thorough adds all 8 + 64 + a 200-sample of 512 flag combinations "
                 "x 40 lists. swr/top/dsl: random records / arrays / maps per option set, many per mlr process. preorder: all ordered "
                 "pairs + sampled 3-sorts of a value pool through each comparator of the verb and of the DSL. Non-trivial (verb): the "
@@ -1212,8 +1562,18 @@ def run(chk):
                 "collection itself (dsl/swr/preorder pairs).")
     if not only or "verb" in only:
         nv = 600 if q else 5000
-        cases = [{"seed": f"{chk.seed}/{chk.tier}/verb/{i}", "nmax": 60 if (q or i % 5) else 400,
-                  "b": [0, 0, 1, 500][i % 4], "commas": i % 8 == 7} for i in range(nv)]
+        blist = [0, 0, 1, 500, 2, 7, 50]       # --records-per-batch: default, one record, several batches of several records
+        cases = []
+        for i in range(nv):
+            nmax = 60
+            if i % 6 == 5:
+                nmax = 150
+            if not q and i % 5 == 0:
+                nmax = 400
+            if i % 100 == 51:
+                nmax = 1100
+            b = blist[i % 7] if nmax != 1100 else [0, 50, 500][(i // 100) % 3]
+            cases.append({"seed": f"{chk.seed}/{chk.tier}/verb/{i}", "nmax": nmax, "b": b, "commas": i % 8 == 7})
         explicit = [
             # natural key with numerically equal spellings + a second key (C09-F6)
             {"flags": ["-t", "-f"], "fields": ["k1", "k2"],
@@ -1228,9 +1588,22 @@ def run(chk):
                       [("k1", "0xff"), ("k2", "a")]]},
             # natural sort with empty values
             {"flags": ["-t"], "fields": ["k1"], "recs": [[("k1", "b")], [("k1", "")], [("k1", "a")], [("k1", "a10")], [("k1", "a9")]]},
+            # 64-bit ints on both sides of the 2^53 and 2^63 representation thresholds, several spellings
+            {"flags": ["-nf"], "fields": ["k1"],
+             "recs": [[("k1", "9223372036854775807")], [("k1", "9223372036854775806")], [("k1", "9007199254740993")],
+                      [("k1", "9007199254740992")], [("k1", "0x7fffffffffffffff")], [("k1", "9223372036854775805")],
+                      [("k1", "-9223372036854775807")], [("k1", "-9223372036854775808")], [("k1", "9007199254740991")]]},
+            {"flags": ["-nr", "-f"], "fields": ["k1", "k2"],
+             "recs": [[("k1", "9223372036854775806"), ("k2", "a")], [("k1", "9223372036854775807"), ("k2", "b")],
+                      [("k1", "-9223372036854775808"), ("k2", "c")], [("k1", "-9223372036854775807"), ("k2", "d")],
+                      [("k1", "9007199254740992"), ("k2", "e")], [("k1", "0x20000000000001"), ("k2", "f")],
+                      [("k1", "9223372036854775806"), ("k2", "0")]]},
+            # values containing the default OFS whose joined texts coincide (C09-F4)
+            {"flags": ["-f", "-f"], "fields": ["k1", "k2"], "commas": True,
+             "recs": [[("k1", "a,b"), ("k2", "c")], [("k1", "a"), ("k2", "z")], [("k1", "a"), ("k2", "b,c")], [("k1", "A"), ("k2", "b,c")]]},
         ]
         for xi, ex in enumerate(explicit):
-            cases.append({"seed": f"explicit/{xi}", "explicit": ex, "b": 0})
+            cases.append({"seed": f"explicit/{xi}", "explicit": ex, "b": 0, "commas": bool(ex.get("commas"))})
         if not q:
             rng = chk.rng("flagcombos")
             combos = [[a] for a in FLAG_KINDS] + [[a, b] for a in FLAG_KINDS for b in FLAG_KINDS]
@@ -1240,9 +1613,12 @@ def run(chk):
                 for l in range(40):
                     cases.append({"seed": f"{chk.seed}/{chk.tier}/combo/{ci}/{l}", "flags": combo, "nmax": 60, "b": 0})
         chk.pmap(verb_case, cases, chunksize=8, label="verb sort")
+        chk.pmap(json_sort_case, [{"seed": f"{chk.seed}/{chk.tier}/jsonsort/{i}"} for i in range(80 if q else 800)], chunksize=4,
+                 label="verb sort on typed (JSON) input")
+        chk.pmap(noflags_case, [{"argv": a} for a in (["sort"], ["sort", "-b"], ["sort", "then", "cat"])], label="sort without keys")
     if not only or "swr" in only:
-        modes = ["default", "nested-default", "-r", "-n", "-f"]
-        ns = 25 if q else 300
+        modes = ["default", "nested-default", "-r", "-n", "-f", "-r-regex", "-n-f", "-n-r-regex", "-r-f-regex"]
+        ns = 36 if q else 360
         cases = [{"seed": f"{chk.seed}/{chk.tier}/swr/{i}", "mode": modes[i % len(modes)], "nrec": 30} for i in range(ns)]
         cases.append({"seed": f"{chk.seed}/{chk.tier}/swr/then", "mode": "-r-then", "nrec": 10})
         chk.pmap(swr_case, cases, label="sort-within-records")
@@ -1299,8 +1675,9 @@ def run(chk):
         # verb: direct 2-record sorts for every unordered pair in both orders (a batched sort over thousands of groups is
         # not stable, so ties could not be told from strict order there)
         # (a process per 2-record sort is the expensive part: the verb gets a sub-pool, the DSL the whole pool)
-        nv = 30 if q else 90
+        nv = 28 if q else 90
         keep = [v for v in ("0", "-0", "0.0", "1", "1.0", "0x1", "9007199254740992", "9007199254740992.0", "9007199254740994",
+                            "9007199254740993", "9223372036854775807", "9223372036854775806", "0x7fffffffffffffff",
                             "", "abc", "ABC", "Abc", "é", "É", "_", "a", " ") if v in pool]
         rest = [v for v in pool if v not in keep]
         chk.rng("verbpool").shuffle(rest)
@@ -1318,6 +1695,21 @@ def run(chk):
             for i, j, rl in r.get("rels", []):
                 rels[r["kind"]][(i, j)] = rl
                 rels[r["kind"]][(j, i)] = -rl
+        # natural comparator through the same direct 2-record sorts: pairwise agreement with the documented rule only
+        tp = NAT_PAIR_POOL[:16] if q else NAT_PAIR_POOL
+        tpairs = [(i, j, tp[i], tp[j]) for i in range(len(tp)) for j in range(i + 1, len(tp))]
+        tres_ = chk.pmap(verb_pairs_case, [{"kind": "t", "pairs": tpairs[x:x + per]} for x in range(0, len(tpairs), per)],
+                         label="natural comparator pairs (direct 2-record sorts)")
+        trel = {}
+        for r in tres_:
+            for i, j, rl in r.get("rels", []):
+                trel[(i, j)] = rl
+                trel[(j, i)] = -rl
+        if len(trel) == len(tp) * (len(tp) - 1):
+            viol, stats = analyse_relation(tp, trel, [], "verb", "t", ["sort", "-t", "k"], preorder=False)
+            chk.stats["natural_pairs_checked"] = len(tpairs)
+            for sig, what, detail in viol:
+                chk.add_violation(sig, what, detail)
         ntv = 200 if q else 2000
         tl = []
         for _ in range(ntv):
@@ -1366,8 +1758,19 @@ def run(chk):
         "first')",
         "numerically equal but textually different keys (1, 1.0, 0x1) are tied: any relative order is accepted (statement: only "
         "identical key texts keep input order); same for case-fold-equal and natural-equal (a02 / a2) texts",
-        "int pairs/ int-float pairs that are ordered differently exactly and after conversion to double (beyond 2^53) are undecided "
-        "(statement: 'values exactly representable as doubles')",
+        "two ints are ordered by their 64-bit integer value however large (reference-main-arithmetic.md: ints are 64-bit and stay "
+        "ints); an int beyond 2^53 against a FLOAT is undecided where exact and double comparison differ (statement: 'values exactly "
+        "representable as doubles'), and a list holding two different ints with the same double image TOGETHER with a float equal to "
+        "that image is not judged for order (skipped; the generators do not produce it): there the collation need not be transitive",
+        "natural order: digit runs compare numerically whatever their length; lists holding a digit run beyond int64 are not judged "
+        "for order (the listed defect C09-F8 makes the collation intransitive there; it is reported by the direct 2-record probes)",
+        "JSON input: a quoted value is a string whatever it looks like, a bare number is a number (new-in-miller-6.md); bare "
+        "true/false in data are not generated (their type is not documented)",
+        "the preorder laws (antisymmetry, transitivity, 3-sort embedding) of the numeric comparator are required over the pool values "
+        "exactly representable as doubles; the other ints of the pool take part in the pairwise agreement check only; the natural "
+        "comparator (not claimed to be a preorder by the statement) gets the pairwise agreement check only",
+        "a run that ends with a cpu / output-cap / deadlock verdict on these small finite inputs is a violation (kind hang); only the "
+        "wall-clock watchdog ('slow') is inconclusive",
         "case-folded order is decided only where folding to lower and to upper case agree (they differ only for [ \\ ] ^ _ ` vs "
         "letters) and only for ASCII plus a curated set of one-to-one non-ASCII letters",
         "natural order = Alphanum algorithm of the facette/natsort README: maximal digit runs compare numerically (equal values tie), "
@@ -1377,6 +1780,7 @@ def run(chk):
         "records lacking some keys too ('as in reorder')",
         "sort-within-records -f: only relative orders are required (selected keys ascending, other keys in record order); -r is given "
         "as the last argument because a following word is taken as its regex",
+        "top -f x,y: each value field is judged on its own column; every record carries all value fields in those cases; "
         "top: the n selected values are a dominating multiset in collation order, ties at the cut-off may be resolved either way; "
         "without -a rows past the group size are padding with empty values (accepted present or absent)",
         "DSL comparator functions are judged only on homogeneous arrays (all numbers or all non-empty strings / small ints), so the "
